@@ -273,7 +273,7 @@ package ro
 //@   ensures [destination-is-wrapped-in-a-gate-of-the-observable-mode|C01,C02] arg(call.NewSubscriberWithConcurrencyMode, 0) == destination && arg(call.NewSubscriberWithConcurrencyMode, 1) == s.mode
 //@   ensures [subscribe-sees-only-the-gate|C01] arg(callfn.subscribe, 0) == ctx && arg(callfn.subscribe, 1) == res(call.NewSubscriberWithConcurrencyMode)
 //@   ensures [teardown-registered|C03,C14] !panicked(subscribe) && !caught ==> trace(call.NewSubscriberWithConcurrencyMode(_, _), callfn.subscribe(_, _), subscription.Add(res(callfn.subscribe)))
-//@   ensures [panic-becomes-error-then-release|C01,C02,C07] panicked(subscribe) ==> trace(call.NewSubscriberWithConcurrencyMode(_, _), callfn.subscribe(_, _), subscription.ErrorWithContext(ctx, newObservableError(recoverValueToError(panicval(subscribe)))), subscription.Unsubscribe())
+//@   ensures [panic-becomes-error-then-release|C01,C02,C07,C03] panicked(subscribe) ==> trace(call.NewSubscriberWithConcurrencyMode(_, _), callfn.subscribe(_, _), subscription.ErrorWithContext(ctx, newObservableError(recoverValueToError(panicval(subscribe)))), subscription.Unsubscribe())
 //@   ensures [returns-the-gate|C01] result == res(call.NewSubscriberWithConcurrencyMode)
 
 // ---------------------------------------------------------------------------
